@@ -88,21 +88,49 @@ Definition no_alias (t : task) (w : world) : bool :=
   end.
 
 (* ---- recorded finding classes (call-site granularity) ---- *)
-(* K8: copy/template whose desired content is empty onto a destination that does not
-   exist: the file is created but the task reports ok *)
-Definition known_empty_create (t : task) (w : world) : bool :=
-  match t with
-  | TCopy p =>
-      match stat w (cp_dest p) with
-      | Some _ => false
-      | None =>
-          match cp_input p with
-          | IContent c => String.eqb c ""
-          | ISrc sp => match read_src w sp with Some c => String.eqb c "" | None => true end
-          end
+(* what template hands to copy_file *)
+Definition template_copy_params (p : template_params) (w : world) (text : string) : option copy_params :=
+  match tp_mode p with
+  | MPreserve =>
+      match stat w (tp_src p) with
+      | Some n => Some {| cp_input := IContent text; cp_dest := tp_dest p;
+                          cp_mode := MStr (to_octal (mask_perm (st_mode n))) |}
+      | None => None
       end
-  | TTemplate p (Some c) =>
-      match stat w (tp_dest p) with Some _ => false | None => String.eqb c "" end
+  | m => Some {| cp_input := IContent text; cp_dest := tp_dest p; cp_mode := m |}
+  end.
+
+(* the anonymous file check mode opens in place of a missing destination gets the permission bits a
+   newly created destination gets (both are 0666 & ~umask; the harness probes it per umask) *)
+Definition tmp_like_create (e : env) : Prop := mask_perm (tmpmode e) = mask_perm (file_create_mode e).
+
+(* a numeric mode that differs from the bits a created file gets: a chmod follows the creation *)
+Definition mode_pending (e : env) (p : copy_params) : bool :=
+  match cp_mode p with
+  | MStr ms => match parse_octal ms with
+               | OOk m => negb (N.eqb (mask_perm (file_create_mode e)) (mask_perm m))
+               | OErr => false
+               end
+  | _ => false
+  end.
+
+(* K8: copy/template whose desired content is empty onto a destination that does not exist, with no
+   chmod to follow: the file is created but the task reports ok (and check mode, which compares with
+   an anonymous empty file, reports ok too) *)
+Definition kec_copy (e : env) (p : copy_params) (w : world) : bool :=
+  match stat w (cp_dest p) with
+  | Some _ => false
+  | None =>
+      andb (match cp_input p with
+            | IContent c => String.eqb c ""
+            | ISrc sp => match read_src w sp with Some c => String.eqb c "" | None => true end
+            end)
+           (negb (mode_pending e p))
+  end.
+Definition known_empty_create (e : env) (t : task) (w : world) : bool :=
+  match t with
+  | TCopy p => kec_copy e p w
+  | TTemplate p (Some c) => match template_copy_params p w c with Some cp => kec_copy e cp w | None => false end
   | _ => false
   end.
 
